@@ -142,6 +142,7 @@ def check_model(text, rng, want=6, tier="quick", work=None):
         out.update(status="skipped", reason="rejected_by_loader: " + lo.describe())
         return out
     ode = lo.value
+    out["_ode"] = ode  # the object the code under test is generated from (matchers compare it with a fresh interpreter)
     co = C.c_code(ode, schemes=SCHEMES, delta=DELTA)
     fns = list(FNS)
     if not co.ok:
@@ -364,6 +365,7 @@ def run_case(spec, ctx):
             for v in sub["violations"]:
                 v["detail"]["expression"] = e
                 v["text"] = c01.single_text(spec, e)
+                v["_ode"] = sub.get("_ode")
                 vs.append(v)
         out["violations"] = vs
         out["counters"]["compared"] = okc
@@ -376,9 +378,15 @@ def run_case(spec, ctx):
                 vref = RefModel.from_text(v.get("text", text))
             except Exception:
                 vref = None
-            vode = C.load_text(v.get("text", text))
-            F.classify(ID, v, text=v.get("text", text), features=feats, code=out.get("code"), ref=vref, ode=vode.value if vode.ok else None)
+            used = v.pop("_ode", None) or out.get("_ode")
+            if used is None:
+                vode = C.load_text(v.get("text", text))
+                used = vode.value if vode.ok else None
+            F.classify(ID, v, text=v.get("text", text), features=feats, code=out.get("code"), ref=vref, ode=used)
             v.pop("_point", None)
+    out.pop("_ode", None)
+    for v in out["violations"]:
+        v.pop("_ode", None)
     out["hash"] = models.structural_hash(text)
     out["model_text"] = text
     out["counters"]["constructs"] = {**{"f:" + k: v for k, v in feats["funcs"].items()}, **{"op:" + k: v for k, v in feats["ops"].items()}, **feats["bool_arity"]}
